@@ -1035,6 +1035,12 @@ impl Melda {
         if self.has_staging() {
             bail!("stage_not_empty")
         }
+        // No revision is staged: values left in the data stage are unreferenced (e.g. after
+        // remove_object of an uncommitted object) and must not make the reload fail half-way
+        self.data
+            .write()
+            .expect("cannot_acquire_data_for_writing")
+            .unstage()?;
         // Clear the documents
         self.documents
             .write()
@@ -1236,6 +1242,11 @@ impl Melda {
         if self.has_staging() {
             bail!("stage_not_empty")
         }
+        // (see reload: unreferenced values must not make the reload fail half-way)
+        self.data
+            .write()
+            .expect("cannot_acquire_data_for_writing")
+            .unstage()?;
         let mut documents_w = self
             .documents
             .write()
